@@ -547,6 +547,90 @@ fn encoder(rep: &Reporter, args: &Args) {
     rep.tally("encoder cases", n);
 }
 
+/// What the client finds on the wire: a `_udp2` stream of the real HTTP/2 codec (in-memory session, real tunnel, real
+/// direct forwarder, a UDP echo server on loopback) read by a client with a *small* flow-control window that does
+/// not read for a while, so that replies arrive while the send window is exhausted or nearly so. Replies may be dropped
+/// (datagrams), but whatever is written must be a sequence of whole 6.4 records carrying echoed payloads.
+fn wire_part(rep: &std::sync::Arc<Reporter>, args: &Args) {
+    use crate::kit::*;
+    use std::time::Duration;
+    use trusttunnel::verif::tunnel::{Fwd, Policy, Proto};
+    let dir = crate::env::work_dir(&args.root, "c06w");
+    let rt = crate::env::rt_multi(2);
+    rt.block_on(async {
+        let echo = tokio::net::UdpSocket::bind("127.0.0.1:0").await.expect("udp bind");
+        let echo_addr = echo.local_addr().unwrap();
+        tokio::spawn(async move { let mut b = vec![0u8; 65536]; loop { if let Ok((n, from)) = echo.recv_from(&mut b).await { let _ = echo.send_to(&b[..n], from).await; } } });
+        let ctx = std::sync::Arc::new(crate::env::make_ctx(&dir, crate::env::CtxOpts { allow_private: true, ..Default::default() }));
+        let src: SocketAddr = "10.8.0.2:40123".parse().unwrap();
+        let mut id = 60_000u64;
+        for round in 0..args.qt(2u64, 12u64) {
+            for window in [150u32, 300, 700, 1500, 65_535] {
+                id += 1;
+                let sess = open_session(&ctx, Proto::H2, How::Tunnel(Fwd::Real, Policy::Default), "main.test", false, id);
+                let Ok(Ok((mut send, conn))) = tokio::time::timeout(Duration::from_secs(5), h2::client::Builder::new().initial_window_size(window).handshake::<_, Bytes>(sess.client)).await else { rep.inconclusive("wire: HTTP/2 session not established"); continue };
+                let driver = tokio::spawn(async move { let _ = conn.await; });
+                let _ = futures::future::poll_fn(|cx| send.poll_ready(cx)).await;
+                let Ok((fut, mut tx)) = send.send_request(http::Request::builder().method("CONNECT").uri("_udp2").body(()).unwrap(), false) else { driver.abort(); continue };
+                let Ok(Ok(resp)) = tokio::time::timeout(Duration::from_secs(3), fut).await else { rep.inconclusive("wire: _udp2 not accepted"); driver.abort(); continue };
+                if resp.status() != 200 { rep.inconclusive("wire: _udp2 not accepted"); driver.abort(); continue; }
+                let mut body = resp.into_body();
+                // a burst of datagrams whose echoes (140-byte records) meet a window that is not being reopened
+                let n = 8 + (round % 3) as usize * 4;
+                let mut sent: Vec<Vec<u8>> = vec![];
+                for k in 0..n {
+                    let mut payload = format!("w{}r{}k{:03}-", window, round, k).into_bytes();
+                    payload.resize(100, b'a' + (k % 26) as u8);
+                    let rec = encode_63(src, echo_addr, b"app", &payload, None);
+                    tx.reserve_capacity(rec.len());
+                    let _ = tokio::time::timeout(Duration::from_secs(3), futures::future::poll_fn(|cx| tx.poll_capacity(cx))).await;
+                    if tx.send_data(Bytes::from(rec), false).is_err() { break; }
+                    sent.push(payload);
+                    if k % 3 == 2 { tokio::time::sleep(Duration::from_millis(5)).await; }
+                }
+                tokio::time::sleep(Duration::from_millis(150)).await;
+                // now read what was written, reopening the window as it is consumed
+                let mut wire: Vec<u8> = vec![];
+                loop {
+                    match tokio::time::timeout(Duration::from_millis(400), body.data()).await {
+                        Ok(Some(Ok(b))) => { let _ = body.flow_control().release_capacity(b.len()); wire.extend_from_slice(&b); }
+                        _ => break,
+                    }
+                }
+                rep.evals(1);
+                rep.distinct(common::fnv(format!("wire|{}|{}", window, round).as_bytes()));
+                // parse: [len u32 = 36 + payload][src 16+2][dst 16+2][payload]
+                let mut pos = 0usize;
+                let mut whole = 0usize;
+                let mut problem: Option<String> = None;
+                let mut seen_payloads: Vec<Vec<u8>> = vec![];
+                while pos < wire.len() {
+                    if wire.len() - pos < 4 { problem = Some(format!("{} stray byte(s) at the end of the stream", wire.len() - pos)); break; }
+                    let len = u32::from_be_bytes([wire[pos], wire[pos + 1], wire[pos + 2], wire[pos + 3]]) as usize;
+                    if len < 36 || len > 36 + MAX_UDP_PAYLOAD { problem = Some(format!("record at offset {} declares length {}", pos, len)); break; }
+                    if wire.len() - pos - 4 < len { problem = Some(format!("truncated record at offset {}: declared {} bytes, only {} follow", pos, len, wire.len() - pos - 4)); break; }
+                    let rec = &wire[pos + 4..pos + 4 + len];
+                    let rsrc = SocketAddr::new(ref_ip(&rec[..16]), u16::from_be_bytes([rec[16], rec[17]]));
+                    let rdst = SocketAddr::new(ref_ip(&rec[18..34]), u16::from_be_bytes([rec[34], rec[35]]));
+                    let payload = rec[36..].to_vec();
+                    if rsrc != echo_addr || rdst != src { problem = Some(format!("record at offset {} labelled {} -> {}", pos, rsrc, rdst)); break; }
+                    if !sent.contains(&payload) { problem = Some(format!("record at offset {} carries a payload that was never sent", pos)); break; }
+                    if seen_payloads.contains(&payload) { problem = Some(format!("record at offset {} repeats a datagram", pos)); break; }
+                    seen_payloads.push(payload);
+                    whole += 1;
+                    pos += 4 + len;
+                }
+                let w = json!({"kind":"udp-wire","protocol":"h2","client_stream_window":window,"datagrams_sent":sent.len(),"bytes_on_the_wire":wire.len(),"whole_records":whole,"problem":problem});
+                if let Some(p) = &problem { rep.violation(&format!("wire: the stream to the client is not a sequence of whole 6.4 records ({})", p.split(" at offset").next().unwrap_or(p).split(':').next().unwrap_or(p)), w); }
+                else if whole == 0 { rep.inconclusive("wire: no echo came back at all"); }
+                else { rep.tally("wire: stream to a slow HTTP/2 client is a sequence of whole 6.4 records", 1); rep.tally("wire: echoes delivered", whole as u64); rep.tally("wire: echoes dropped (window closed)", (sent.len() - whole) as u64); }
+                drop(tx);
+                driver.abort();
+            }
+        }
+    });
+}
+
 pub fn run(args: &Args) -> i32 {
     let rep = std::sync::Arc::new(Reporter::new(
         args,
@@ -564,6 +648,7 @@ pub fn run(args: &Args) -> i32 {
     }
     sweep(&rep, args);
     encoder(&rep, args);
+    wire_part(&rep, args);
     rep.finish()
 }
 
